@@ -35,6 +35,7 @@ thread_local! {
 pub fn hook_panics() {
     std::panic::set_hook(Box::new(|info| {
         let loc = info.location().map(|l| format!("{}:{}", l.file(), l.line())).unwrap_or_default();
+        if std::env::var("VERIF_LOUD").is_ok() { eprintln!("panic at {}: {}", loc, info); }
         PANIC_LOC.with(|p| *p.borrow_mut() = loc);
     }));
 }
